@@ -99,11 +99,11 @@ static Fn make_fn(uint32_t& id_out) {
 enum K { NEW, TRY_NEW, TRY_NEW_DISCARD, MAYBE_NEW, TRY_NEW_POD, ID, BUMP, PEER, MAYBE_PEER, VIEW, TRY_VIEW, VIEW_OWNER, PAIR, TRY_PAIR,
          TAKE_STRS, SUM, FILL, CALL, CALL_TWICE, IGNORE, TRY_CALL, GREET, HOLD, CALL_HELD, UNHOLD, OPT_IN, DOPT_IN, OPT_U32, RES_UNIT, RES_POD,
          DESCRIBE, DESCRIBE_N, TRY_DESCRIBE, DESCRIBE_INTO, DESTROY, MOVE, THROW_SCOPE, SCOPE,
-         LIST_NEW, ITER_BEGIN, ITER_COPY, ITER_DROP, ITER_ADVANCE, ITER_RANGE, HOLD_MUT, CALL_HELD_MUT, CALL_MUT, NKINDS };
+         LIST_NEW, ITER_BEGIN, ITER_COPY, ITER_DROP, ITER_ADVANCE, ITER_RANGE, HOLD_MUT, CALL_HELD_MUT, CALL_MUT, RESULT_ASSIGN, NKINDS };
 static const char* KNAME[] = {"new", "try_new", "try_new_discard", "maybe_new", "try_new_pod_err", "id", "bump", "peer", "maybe_peer", "view", "try_view", "view_owner", "pair", "try_pair",
                               "take_strs", "sum", "fill", "call", "call_twice", "ignore", "try_call", "greet", "hold", "call_held", "unhold", "opt_in", "dopt_in", "opt_u32", "res_unit", "res_pod",
                               "describe", "describe_n", "try_describe", "describe_into", "destroy", "move", "throw_scope", "scope",
-                              "list_new", "iter_begin", "iter_copy", "iter_drop", "iter_advance", "iter_range", "hold_mut", "call_held_mut", "call_mut"};
+                              "list_new", "iter_begin", "iter_copy", "iter_drop", "iter_advance", "iter_range", "hold_mut", "call_held_mut", "call_mut", "result_assign"};
 struct Op { int k = 0; int h = 0, g = 0, d = 0; int n = 0; bool f = true; };
 struct Trace { uint64_t seed = 0, run = 0; std::string prop = "C03"; std::vector<Op> ops; };
 static const int NH = 6;
@@ -174,7 +174,7 @@ static Trace gen_trace(uint64_t seed, uint64_t run, const std::string& prop) {
         case 3: o.k = TRY_NEW; kinds[o.h] = o.f ? 1 : 2; break;
         case 4: o.k = MAYBE_NEW; if (o.f) kinds[o.h] = 1; break;
         case 5: o.k = TRY_NEW_POD; if (o.f) kinds[o.h] = 1; break;
-        default: if (rng.chance(1, 2)) { o.k = TRY_NEW_DISCARD; } else { o.k = LIST_NEW; o.n = rng.below(5); kinds[o.h] = 4; } break;
+        default: switch (rng.below(3)) { case 0: o.k = TRY_NEW_DISCARD; break; case 1: o.k = RESULT_ASSIGN; o.n = rng.below(8); break; default: o.k = LIST_NEW; o.n = rng.below(5); kinds[o.h] = 4; } break;
       }
       t.ops.push_back(o); continue;
     }
@@ -278,6 +278,18 @@ struct Exec {
         auto r = Tok::try_new(o.f);
         if (r.is_ok() != o.f) fail("O5-value-integrity", "try_new returned the wrong arm");
         inc("result_dropped_unextracted");
+        break;
+      }
+      case RESULT_ASSIGN: {
+        // result values are assigned over live result values (same arm and other arm), moved, and dropped
+        bool a = o.n & 1, b = o.n & 2, c = o.n & 4;
+        auto r1 = Tok::try_new(a);
+        auto r2 = Tok::try_new(b);
+        r1 = std::move(r2);
+        if (r1.is_ok() != b) fail("O5-value-integrity", "assigned result holds the wrong arm");
+        r1 = Tok::try_new(c);
+        if (r1.is_ok() != c) fail("O5-value-integrity", "assigned result holds the wrong arm");
+        inc("result_assigned_over_live_result");
         break;
       }
       case MAYBE_NEW: {
